@@ -93,24 +93,24 @@ DFirstNLInStream(d) ==
 
 \* Terms have one uniform shape (TLC compares the elements of a set):
 \*   [k kind, n number, c bytes, fs filter names, ch sub-terms, flag]
-T(k, n, c, fs, ch, flag) == [k |-> k, n |-> n, c |-> c, fs |-> fs, ch |-> ch, flag |-> flag]
+Term(k, n, c, fs, ch, flag) == [k |-> k, n |-> n, c |-> c, fs |-> fs, ch |-> ch, flag |-> flag]
 \* words
-WLit(c)   == T("lit", 0, c, <<>>, <<>>, FALSE)              \* a single-quoted literal
-WSub(cmd) == T("sub", 0, <<>>, <<>>, <<cmd>>, FALSE)        \* "$(cmd)"
+WLit(c)   == Term("lit", 0, c, <<>>, <<>>, FALSE)              \* a single-quoted literal
+WSub(cmd) == Term("sub", 0, <<>>, <<>>, <<cmd>>, FALSE)        \* "$(cmd)"
 \* commands (producers of a byte stream on standard output)
-CEmit(n, word)  == T("emit", n, <<>>, <<>>, <<word>>, FALSE)   \* emit n WORD : n stream bytes, then WORD
-CPipe(cmd, fs)  == T("pipe", 0, <<>>, fs, <<cmd>>, FALSE)      \* cmd | f1 | f2 ...  (copying filters)
-CSeq(a, b)      == T("seq", 0, <<>>, <<>>, <<a, b>>, FALSE)    \* { a; b; }
-CHere(n, t, fs) == T("here", n, t, fs, <<>>, FALSE)            \* cat <<'EOF' | f1 ...  with body stream(n) \o t
+CEmit(n, word)  == Term("emit", n, <<>>, <<>>, <<word>>, FALSE)   \* emit n WORD : n stream bytes, then WORD
+CPipe(cmd, fs)  == Term("pipe", 0, <<>>, fs, <<cmd>>, FALSE)      \* cmd | f1 | f2 ...  (copying filters)
+CSeq(a, b)      == Term("seq", 0, <<>>, <<>>, <<a, b>>, FALSE)    \* { a; b; }
+CHere(n, t, fs) == Term("here", n, t, fs, <<>>, FALSE)            \* cat <<'EOF' | f1 ...  with body stream(n) \o t
 \* scenarios (how the result is observed)
-FSink(cmd, direct) == T("sink", 0, <<>>, <<>>, <<cmd>>, direct)  \* cmd | csink t        (direct: csink t <<'EOF')
-FFile(cmd)         == T("file", 0, <<>>, <<>>, <<cmd>>, FALSE)   \* cmd > f; csink t < f
-FVar(word)         == T("var", 0, <<>>, <<>>, <<word>>, FALSE)   \* v=WORD; val t "$v"
-FArg(word)         == T("arg", 0, <<>>, <<>>, <<word>>, FALSE)   \* val t WORD
-FVarHere(cmd)      == T("varhere", 0, <<>>, <<>>, <<cmd>>, FALSE) \* v=$(cat <<'EOF' ...); val t "$v"
-FHWord(word)       == T("hword", 0, <<>>, <<>>, <<word>>, FALSE) \* csink t <<EOF / $(cmd) / EOF
-FRead(cmd, rest)   == T("read", 0, <<>>, <<>>, <<cmd>>, rest)    \* cmd | { read -r x; val x "$x"; [csink t OFF;] }
-FPar(c1, c2)       == T("par", 0, <<>>, <<>>, <<c1, c2>>, FALSE) \* c1 | csink a & c2 | csink b; wait
+FSink(cmd, direct) == Term("sink", 0, <<>>, <<>>, <<cmd>>, direct)  \* cmd | csink t        (direct: csink t <<'EOF')
+FFile(cmd)         == Term("file", 0, <<>>, <<>>, <<cmd>>, FALSE)   \* cmd > f; csink t < f
+FVar(word)         == Term("var", 0, <<>>, <<>>, <<word>>, FALSE)   \* v=WORD; val t "$v"
+FArg(word)         == Term("arg", 0, <<>>, <<>>, <<word>>, FALSE)   \* val t WORD
+FVarHere(cmd)      == Term("varhere", 0, <<>>, <<>>, <<cmd>>, FALSE) \* v=$(cat <<'EOF' ...); val t "$v"
+FHWord(word)       == Term("hword", 0, <<>>, <<>>, <<word>>, FALSE) \* csink t <<EOF / $(cmd) / EOF
+FRead(cmd, rest)   == Term("read", 0, <<>>, <<>>, <<cmd>>, rest)    \* cmd | { read -r x; val x "$x"; [csink t OFF;] }
+FPar(c1, c2)       == Term("par", 0, <<>>, <<>>, <<c1, c2>>, FALSE) \* c1 | csink a & c2 | csink b; wait
 
 Undefined == D(-1, 0, <<>>)       \* the term is outside the compact form (never generated)
 
